@@ -310,6 +310,12 @@ func typeDecls(c *spec.Case, pkgKey string) string {
 	}
 	for i := range c.Types {
 		t := &c.Types[i]
+		if t.Kind == spec.KStruct && t.Pkg == pkgKey && t.ImplError {
+			fmt.Fprintf(&sb, "func (x *%s) Error() string { return \"value that implements error\" }\n\n", t.Name)
+		}
+	}
+	for i := range c.Types {
+		t := &c.Types[i]
 		if t.Kind != spec.KStruct || t.Pkg != pkgKey {
 			continue
 		}
